@@ -439,6 +439,16 @@ func BuildJoin(query *Query, joinExpr *sqlparser.JoinTableExpr) error {
 	if err != nil {
 		return err
 	}
+	// what the two sides deferred while they were built (a derived table with a subquery or an ASYNC call) is this query's to finish
+	for _, side := range []*Query{left, right} {
+		side := side
+		query.postProcessors = append(query.postProcessors, side.postProcessors...)
+		query.wg.Add(1)
+		go func() {
+			side.wg.Wait()
+			query.wg.Done()
+		}()
+	}
 	if joinExpr.Condition.On == nil {
 		expr := new(sqlparser.AndExpr)
 		expr.Left = sqlparser.BoolVal(true)
@@ -1852,6 +1862,13 @@ func (query *Query) exec() (result any, err error) {
 				if err != nil {
 					return nil, err
 				}
+				// what the copy deferred (removal of navigation entries, ASYNC calls still running) is this query's to finish
+				query.postProcessors = append(query.postProcessors, copy.postProcessors...)
+				query.wg.Add(1)
+				go func() {
+					copy.wg.Wait()
+					query.wg.Done()
+				}()
 				slice = append(slice, rs)
 			}
 		case Map:
@@ -2019,7 +2036,8 @@ func CopyQuery(query *Query) *Query {
 		offsetDefinition:  query.offsetDefinition,
 		orderByDefinition: query.orderByDefinition,
 		options:           query.options,
-		postProcessors:    query.postProcessors,
+		// the copy collects the work it defers in a list of its own; whoever runs the copy adopts that list
+		postProcessors: make([]func() error, 0),
 		// aggregates and ONCE calls of the copy memoise into their own map
 		singletonExecutions: make(map[string]any),
 	}
